@@ -151,7 +151,8 @@ class PathManager(object):
             self.add(x >= lo)
         if hi is not None:
             self.add(x <= hi)
-        return SInt(x)
+        VAR_BOUNDS[name] = (None if lo is None else Fraction(lo), None if hi is None else Fraction(hi))
+        return SInt(x, (Fraction(0), {name: Fraction(1)}))
 
     def boolean(self, name):
         if self.concrete is not None:
@@ -206,7 +207,7 @@ class PathManager(object):
             if chosen is None:
                 chosen = i
             else:
-                alts.append(i)
+                alts.append((i, c))
         if chosen is None:
             chosen = 0  # cannot happen: option 0 always costs 0
         self.preemptions += costs[chosen] if costs else 0
@@ -257,7 +258,7 @@ class PathManager(object):
             raise Infeasible()
         if feas_t:
             val = True
-            alts = [0] if feas_f else []
+            alts = [(0, 0)] if feas_f else []
         else:
             val = False
             alts = []
@@ -913,9 +914,12 @@ def _int_arith(a, b, op):
 class SInt(int):
     """A mathematical integer: exact value or z3 Int term (subclass of int)."""
 
-    def __new__(cls, v):
+    def __new__(cls, v, lin=None):
         if isinstance(v, SInt):
+            lin = v.lin
             v = v.v
+        if v is None and lin is not None:
+            v = _lin_term(lin) if lin[1] else lin[0]
         if isinstance(v, int):
             o = int.__new__(cls, v)
             o.v = Fraction(v)
@@ -925,6 +929,7 @@ class SInt(int):
         else:
             o = int.__new__(cls, 0)
             o.v = v
+        o.lin = lin if _is_sym(o.v) else None
         return o
 
     @property
@@ -934,7 +939,12 @@ class SInt(int):
     def term(self):
         return self.v if _is_sym(self.v) else z3.IntVal(int(self.v))
 
-    def _bin(self, o, op, swap=False, real=False):
+    def _lin(self):
+        if not _is_sym(self.v):
+            return (self.v, {})
+        return self.lin
+
+    def _bin(self, o, op, swap=False, real=False, kind=None):
         if isinstance(o, SReal):
             return NotImplemented if not swap else NotImplemented
         p = _num_payload(o)
@@ -947,29 +957,43 @@ class SInt(int):
         a, b = (p, self.v) if swap else (self.v, p)
         r = _int_arith(a, b, op)
         if _is_sym(r):
-            return SInt(r) if z3.is_int(r) else SReal(r)
+            lin = None
+            if kind is not None:
+                la, lb = self._lin(), _lin_of(o)
+                if swap:
+                    la, lb = lb, la
+                if la is not None and lb is not None:
+                    if kind == "+":
+                        lin = _lin_add(la, lb, 1)
+                    elif kind == "-":
+                        lin = _lin_add(la, lb, -1)
+                    elif not la[1]:
+                        lin = _lin_scale(lb, la[0])
+                    elif not lb[1]:
+                        lin = _lin_scale(la, lb[0])
+            return SInt(r, lin) if z3.is_int(r) else SReal(r)
         return SInt(r) if r.denominator == 1 else SReal(r)
 
     def __add__(self, o):
-        return self._bin(o, lambda x, y: x + y)
+        return self._bin(o, lambda x, y: x + y, False, kind="+")
 
     def __radd__(self, o):
-        return self._bin(o, lambda x, y: x + y, True)
+        return self._bin(o, lambda x, y: x + y, True, kind="+")
 
     def __sub__(self, o):
-        return self._bin(o, lambda x, y: x - y)
+        return self._bin(o, lambda x, y: x - y, False, kind="-")
 
     def __rsub__(self, o):
-        return self._bin(o, lambda x, y: x - y, True)
+        return self._bin(o, lambda x, y: x - y, True, kind="-")
 
     def __mul__(self, o):
-        return self._bin(o, lambda x, y: x * y)
+        return self._bin(o, lambda x, y: x * y, False, kind="*")
 
     def __rmul__(self, o):
-        return self._bin(o, lambda x, y: x * y, True)
+        return self._bin(o, lambda x, y: x * y, True, kind="*")
 
     def __neg__(self):
-        return SInt(-self.v)
+        return SInt(-self.v, _lin_scale(self.lin, -1) if (_is_sym(self.v) and self.lin is not None) else None)
 
     def __pos__(self):
         return self
@@ -1020,9 +1044,21 @@ class SInt(int):
         return SReal(self.v if not _is_sym(self.v) else z3.ToReal(self.v)).__truediv__(o)
 
     def _c(self, o, op):
+        if isinstance(o, SReal):
+            return NotImplemented  # let SReal's reflected comparison handle it
         p = _num_payload(o)
         if p is None:
             return NotImplemented
+        la, lb = self._lin(), _lin_of(o)
+        if la is not None and lb is not None:
+            d = _lin_add(la, lb, -1)
+            if not d[1]:
+                return op(d[0], 0)
+            lo, hi = _lin_range(d)
+            q = _quick_range(lo, hi, op)
+            if q is not None:
+                return q
+            return SBool(None, (op, d))
         a, b = self.v, p
         if _is_sym(a) and z3.is_int(a) and not _is_sym(b) and isinstance(b, Fraction) and b.denominator == 1:
             return SBool(op(a, z3.IntVal(int(b))))
